@@ -58,7 +58,24 @@ class C02(Prop):
         text = G.gen_program(rng)
         tool = rng.choice(["reformat", "tidy", "tidy"])
         flags = dict(add_missing=False, remove_unused=rng.random() < 0.8, add_mandatory=False)
-        return dict(text=text, tool=tool, params=R.gen_params(rng), known=[], mandatory=[], flags=flags)
+        mand = []
+        if tool == "tidy" and rng.random() < 0.25:
+            # a mandatory import makes tidy insert a new block: the rest of the program must not notice
+            mand = [rng.choice(["from __future__ import annotations", "import pb", "from pc.sub.deep import d as mand_d"])]
+            flags["add_mandatory"] = True
+        return dict(text=text, tool=tool, params=R.gen_params(rng), known=[], mandatory=mand, flags=flags)
+
+    def exhaustive_cases(self, tier, rng):
+        import c02_scenarios
+        out = []
+        for text in c02_scenarios.PROGRAMS:
+            for tool, ru in (("reformat", False), ("tidy", True)):
+                for mand in ([], ["from __future__ import annotations"]):
+                    if mand and tool != "tidy":
+                        continue
+                    out.append(dict(text=text, tool=tool, params={}, known=[], mandatory=mand,
+                                    flags=dict(add_missing=False, remove_unused=ru, add_mandatory=bool(mand))))
+        return out
 
     def run_impl(self, case):
         obs = {}
@@ -98,9 +115,15 @@ class C02(Prop):
             fails.append(dict(what="sequence of calls into imported objects differs", log_in=a["log"][:12], log_out=b["log"][:12], **ctx))
         if a["out"] != b["out"]:
             fails.append(dict(what="printed output differs", out_in=a["out"][:300], out_out=b["out"][:300], **ctx))
+        mand_bound = set()
+        for stmt in case.get("mandatory", []):
+            for m, lvl, nm, asn in R.top_imports(stmt + "\n"):
+                mand_bound.add(asn or nm.split(".")[0])
         for k, v in b["globals"].items():
             if k == "__doc__" and a["doc"] is None:
                 continue     # "keeps the same module docstring" is claimed for modules that have one
+            if k in mand_bound and k not in a["globals"]:
+                continue     # bound by the mandatory import the tool was told to add
             if k not in a["globals"]:
                 fails.append(dict(what="rewritten program binds a new global", name=k, **ctx))
             elif a["globals"][k] != v:
@@ -235,7 +258,23 @@ def fam_dead_rebinding_import(case, failure):
     return True
 
 
-C02.families = {"same_bound_name_in_block": fam_same_bound_name_in_block,
+def fam_augassign_imported_name(case, failure):
+    """D9c/D35: `n += 1` on a name whose only binding is an import: the read is not seen, the import is removed."""
+    import ast
+    if failure.get("what") != "rewritten program raises" or "NameError" not in str(failure.get("exc")):
+        return False
+    import re as _re
+    m = _re.search(r"name '(\w+)' is not defined", str(failure.get("exc")))
+    if not m:
+        return False
+    name = m.group(1)
+    tree = ast.parse(case["text"] if case["text"].endswith("\n") else case["text"] + "\n")
+    return any(isinstance(n, ast.AugAssign) and isinstance(n.target, ast.Name) and n.target.id == name
+               for n in ast.walk(tree))
+
+
+C02.families = {"augassign_imported_name": fam_augassign_imported_name,
+                "same_bound_name_in_block": fam_same_bound_name_in_block,
                 "dead_rebinding_import": fam_dead_rebinding_import}
 
 PROP = C02()
